@@ -44,10 +44,20 @@ def absentVal (env : Env) (fuel : Nat) (T : Ty) : Val :=
   | .ptr _ _ => .none
   | _ => zeroVal env fuel T
 
-/-- Magic.ValidateTag: a failed read yields 0 and leaves the cursor where it was. The number the decoder stores into
-the field (the tag's value) is not part of the value: the field is dumped as `#` on both sides (tlb.Transaction's
-hand decoder, for one, leaves it 0). -/
+/-- Magic.ValidateTag (after the `fix:` "Magic.ValidateTag returns the error of the read"): the tag is read and
+compared. The number the decoder stores into the field (the tag's value) is not part of the value: the field is dumped
+as `#` on both sides (tlb.Transaction's hand decoder, for one, leaves it 0). -/
 def decodeMagic (tg : Option Tag) (s : Slice) : Outcome (Val × Slice) :=
+  match tg with
+  | none => .err "unsupported tag"
+  | some t => do
+    let (y, s') ← s.readUint t.len
+    if t.val ≠ y then .err "magic prefix not found" else .ok (.magic, s')
+
+/-- Magic.ValidateTag as shipped: the error of `ReadUint` was dropped, so a failed read counted as the value 0 and
+left the cursor where it was — a tag whose value is 0 (`shardident$00`, `msg_metadata#0`, `#00`, …) accepted a cell
+that ends before the tag (witness `magic_orig_defect`). -/
+def decodeMagicOrig (tg : Option Tag) (s : Slice) : Outcome (Val × Slice) :=
   match tg with
   | none => .err "unsupported tag"
   | some t =>
